@@ -171,7 +171,6 @@ def run(ctx):
         ctx.say(f"note: {n_drift} lines differ from the model only in bookkeeping the property does not speak about "
                 f"(batch shape, refresh queue, expiry/refresh/LRU policy, error wording, tracker layout); first: {json.dumps(drift_samples[0])[:500]}")
     handle_bigreload_probe(ctx)
-    handle_rollback_probe(ctx)
     handle_race_probe(ctx)
 
     stats = json.load(open(os.path.join(ctx.out, "c10.stats.json")))
@@ -221,28 +220,6 @@ def history_of(ops, lineno):
     while start > 0 and not (ops[start].startswith("cnew") or ops[start] == "tnew"):
         start -= 1
     return ops[start:lineno]
-
-
-def handle_rollback_probe(ctx):
-    """Outside the property's alphabet (reload rollback), reported separately: clearReloadDomainRoutingMap on a
-    generation whose tracker is populated, then the cache replay — theorem resync_sends_nothing says the
-    replay sends nothing, so the table stays empty."""
-    path = os.path.join(ctx.out, "c10.rollback.txt")
-    if not os.path.exists(path):
-        ctx.say("HARNESS-FAILED rollback probe produced no output")
-        return
-    line = open(path).read().strip()
-    ctx.cov["rollback_probe"] = line
-    f = fields(line)
-    if line.startswith("crash:") or f.get("before_mirror") != "1":
-        ctx.say("note: rollback probe did not run as designed: " + line[:300])
-        return
-    if f.get("after_mirror") == "1":
-        return
-    what = ("reload rollback (outside C10's quantifier, see design_notes/C10.md): clearing domain_routing_map under a populated "
-            "tracker and replaying the cache sends nothing; " + line)
-    ctx.say("note: " + what[:400])
-    ctx.cov.setdefault("observations_outside_quantifier", []).append(what)
 
 
 def handle_race_probe(ctx):
